@@ -68,6 +68,8 @@ class World:
                 self.add(P(*[self.hists()[i % max(1, len(self.hists()))] for i in d[1]] if self.hists() else ()))
             else:
                 self.add(R.from_value(self.hists()[d[1] % len(self.hists())], annotation=d[2]))
+                if d[1] % 2 and self.hists():
+                    self.add(R.from_value(P(self.hists()[d[1] % len(self.hists())])))  # a roller over a one-die pool
 
     def hists(self):
         return [o for k, o, _ in self.objs if k == "H"]
